@@ -192,7 +192,10 @@ Theorem confirm_new_only b ans a :
   a_delete a = [] -> Forall (fun e => snd (snd e) = NotOnDest) (a_copy a) ->
   confirm b ans a = CDone a [] b ans [].
 Proof.
-  intros Hd Hc. unfold confirm. rewrite Hd. cbn [confirm_deletes].
+  intros Hd Hc. unfold confirm. rewrite Hd. cbn [confirm_deletes kept_in_the_way filter map].
+  assert (Hnb : forall V (l : list (path * V)), filter (not_blocked []) l = l).
+  { intros V l. induction l; cbn; auto. f_equal; auto. }
+  rewrite Hnb.
   assert (E : forall l np bb, Forall (fun e => snd (snd e) = NotOnDest) l -> confirm_copies bb ans l np = Some ([], bb, ans, np)).
   { induction l as [|[p [e r]] l IH]; intros np bb HF; [reflexivity|].
     inversion HF; subst. cbn in H1. subst r. cbn [confirm_copies]. apply IH; auto. }
